@@ -4,6 +4,7 @@ import (
 	"encoding/json"
 	"fmt"
 	"math"
+	"reflect"
 	"strings"
 
 	metav1 "k8s.io/apimachinery/pkg/apis/meta/v1"
@@ -636,4 +637,50 @@ func byteMutate(g *vkit.Rand, o *proxyv1alpha1.UpstreamCluster) *proxyv1alpha1.U
 		}
 	}
 	return nil
+}
+
+var gateValues = []string{"GlobalRateLimiter=true", "GlobalRateLimiter=false", "DenyAllRequests=false", "Tracing=true", "",
+	"NoSuchGate=true", "Tracing=maybe", "DenyAllRequests=true,NoSuchGate=true", "=", "GlobalRateLimiter", "GlobalRateLimiter=true,,"}
+
+// genUpdate builds the object of an UPDATE request for the stored object old: only metadata changed (feature-gate
+// annotation from valid and invalid gate strings, other annotations, labels), only the spec changed, both, or nothing.
+func genUpdate(g *vkit.Rand, m *material, old *proxyv1alpha1.UpstreamCluster) (*proxyv1alpha1.UpstreamCluster, string) {
+	n := old.DeepCopy()
+	change := []string{"metadata-only", "metadata-only", "metadata-only", "metadata-only", "spec-only", "spec-only", "both", "both", "both", "nothing"}[g.Intn(10)]
+	if change == "metadata-only" || change == "both" {
+		if n.Annotations == nil {
+			n.Annotations = map[string]string{}
+		}
+		switch g.Intn(6) {
+		case 0, 1, 2:
+			n.Annotations[features.FeatureGateAnnotationKey] = g.Pick(gateValues)
+		case 3:
+			delete(n.Annotations, features.FeatureGateAnnotationKey)
+			n.Annotations["note"] = g.Pick([]string{"a", "b", ""})
+		case 4:
+			n.Labels = map[string]string{g.Pick([]string{"team", "bad key"}): g.Pick([]string{"a", "b", "bad value!"})}
+		case 5:
+			n.Annotations[features.FeatureGateAnnotationKey] = g.Pick(gateValues)
+			n.Labels = map[string]string{"rev": g.Pick([]string{"1", "2"})}
+		}
+		if reflect.DeepEqual(n.ObjectMeta, old.ObjectMeta) {
+			n.Annotations["touched"] = "yes"
+		}
+	}
+	if change == "spec-only" || change == "both" {
+		var src *proxyv1alpha1.UpstreamCluster
+		if g.Bool() {
+			src = genValid(g, m)
+		} else {
+			src, _ = genObject(g, m)
+		}
+		n.Spec = src.Spec
+		if reflect.DeepEqual(n.Spec, old.Spec) {
+			n.Spec.Logging.Mode = "on"
+			if old.Spec.Logging.Mode == "on" {
+				n.Spec.Logging.Mode = "off"
+			}
+		}
+	}
+	return n, change
 }
